@@ -90,3 +90,17 @@ mod tests {
         assert_ne!(rng.next_u64(), 0);
     }
 }
+
+// Verification hooks (add-only, compiled only with `--cfg rngs_verif`).
+#[cfg(rngs_verif)]
+impl Xoroshiro64StarStar {
+    /// Verification hook: build a generator directly from its state words.
+    pub fn verif_from_state(s: [u32; 2]) -> Self {
+        Xoroshiro64StarStar { s0: s[0], s1: s[1] }
+    }
+
+    /// Verification hook: read the state words.
+    pub fn verif_state(&self) -> [u32; 2] {
+        [self.s0, self.s1]
+    }
+}
